@@ -104,10 +104,17 @@ Definition spec_ok (c : scase) : bool :=
     only the specification's verdict: every call returned. *)
 Record mcase := { m_tables : N; m_flush : bool; m_compactions : list bool; m_reads_ok : bool; m_close : bool }.
 
+(** Fourth kind: free-running concurrent writers of large inline values (the
+    commit worker's batches hit their byte budget), then Close, all under a
+    watchdog.  Verdict of the specification only: every Set returned, every
+    acknowledged value is readable, Close returned. *)
+Record wcase := { w_writers : N; w_ops : N; w_returned : N; w_reads_ok : bool; w_close : bool }.
+
 Inductive case :=
 | SchedCase (c : scase)
 | TxnCase (c : RunTxn.case)
-| MaintCase (c : mcase).
+| MaintCase (c : mcase)
+| WritersCase (c : wcase).
 
 Definition check (c : case) : verdict :=
   match c with
@@ -118,6 +125,9 @@ Definition check (c : case) : verdict :=
   | MaintCase c =>
       mk_verdict (negb (m_reads_ok c))
                  (negb (m_flush c && forallb (fun b => b) (m_compactions c) && m_close c)) 0
+  | WritersCase c =>
+      mk_verdict (negb (w_reads_ok c))
+                 (negb ((w_returned c =? w_writers c * w_ops c) && w_close c)) 0
   end.
 
 (* compact constructors *)
@@ -127,6 +137,8 @@ Definition Gr (t : N) (ran : bool) (p : list N) (r : list N) (cl : bool) : group
 Definition Cs (p : list (list cop)) (g : list group) (r : list (list bool)) : case :=
   SchedCase {| c_progs := p; c_groups := g; c_results := r |}.
 
+Definition Wr (writers ops returned : N) (reads close : bool) : case :=
+  WritersCase {| w_writers := writers; w_ops := ops; w_returned := returned; w_reads_ok := reads; w_close := close |}.
 Definition Mt (tables : N) (flush : bool) (comp : list bool) (reads close : bool) : case :=
   MaintCase {| m_tables := tables; m_flush := flush; m_compactions := comp; m_reads_ok := reads; m_close := close |}.
 
